@@ -35,6 +35,9 @@ def run(ctx):
     ctx.rule("R11.n", "namespace model (shared with R13.h): ParameterizedMetaclass.__setattr__ / _clear_params_cache, Parameters.add_parameter and the _cls_parameters property interpreted abstractly on hierarchies of up to three levels and a diamond: after every class-level assignment, add_parameter or removal, `.param[name]` of every class of the hierarchy is the very Parameter object that governs attribute access there -- `D.param.x` of a class below a re-declaration shows the attributes merged for the nearest declaring class of D's MRO, not those of a farther ancestor", floor=1)
     from checks import namespace_model
     namespace_model.report(ctx, "R11.n")
+    ctx.rule("R11.o", "no hook runs on shared containers: in __param_inheritance the copy of the mutable slot values taken over from an ancestor precedes param._update_state() (which, for "
+                      "selectors, appends the merged default to `_objects` in place) -- otherwise creating a subclass edits the ancestor's Parameter", floor=1)
+    copies_before_hooks(ctx, "R11.o")
     ctx.not_decided += ["hierarchies deeper than three levels and multiple-inheritance merges (the model is bounded; the search loop is the same code)",
                         "that the value allow_None is recomputed TO is the right one for each type (only that it is never left Undefined, R11.d)",
                         "that the validators themselves are right (C01)"]
@@ -213,3 +216,33 @@ def run(ctx):
     # model-level rule, run last
     from checks import inherit_model
     inherit_model.report(ctx, "R11.a")
+
+
+def copies_before_hooks(ctx, rule):
+    """In __param_inheritance a mutable slot value taken over from an ancestor is the ANCESTOR'S OBJECT until it is
+    copied.  The per-type hook `param._update_state()` (Selector / ListSelector append the merged default to `_objects`
+    in place when check_on_set is False) and the dynamic slot defaults run on the new Parameter: they must see the
+    copies.  Syntax-directed ordering over the top-level statements of the function: the statement holding the
+    crosstalk copy (`copy.copy` of a slot value read back from `param`) comes before every statement that calls
+    `param._update_state()`."""
+    META = "param.parameterized.ParameterizedMetaclass"
+    f = ctx.repo.func(META + ".__param_inheritance")
+    top = list(f.node.body)
+
+    def top_index(pred):
+        return [i for i, st in enumerate(top) if any(pred(n) for n in ast.walk(st))]
+    copies = top_index(lambda n: isinstance(n, ast.Call) and norm(n.func) in ("copy.copy", "copy.deepcopy") and n.args and not isinstance(n.args[0], ast.Constant))
+    hooks = top_index(lambda n: isinstance(n, ast.Call) and isinstance(n.func, ast.Attribute) and n.func.attr == "_update_state")
+    if not hooks:
+        raise AnalysisError("%s: __param_inheritance no longer calls param._update_state() -- the ordering rule has nothing to anchor on" % rule)
+    if not copies:
+        ctx.fail(rule, f, f.node, "__param_inheritance no longer copies the mutable slot values it takes over from an ancestor: the new Parameter and the ancestor's share one container",
+                 key=f.qualname + "::no-crosstalk-copy")
+        return
+    if min(copies) < min(hooks):
+        ctx.ok(rule, f, top[min(copies)], "inherited mutable slot values are copied (statement %d) before param._update_state() runs on the new Parameter (statement %d)" % (min(copies), min(hooks)))
+    else:
+        ctx.fail(rule, f, top[min(hooks)], "param._update_state() runs on the new Parameter BEFORE the mutable slot values inherited from the ancestor are copied: Selector._update_state appends the "
+                                           "merged default to `_objects` in place (check_on_set=False), i.e. to the ANCESTOR's list -- creating B(A) adds B's default to A's objects, and later "
+                                           "re-declarations below A inherit the polluted list", key=f.qualname + "::hook-before-copy",
+                 input="class A: s = Selector(objects=[1, 2], check_on_set=False); class B(A): s = Selector(default=3) -> A.param.s.objects == [1, 2, 3]")
